@@ -9,6 +9,8 @@ code -> spec : every call of hilbert_distance made by the driver (all seven kind
 direct       : the total_bounds argument is not modified; values do not depend on position / neighbours / slicing."""
 from __future__ import annotations
 
+import os
+
 import numpy as np
 import pandas as pd
 
@@ -192,6 +194,23 @@ def run(tier: str, seed: int) -> int:
                     except Exception:  # noqa: BLE001
                         continue
                     want = dict(zip(sub["id"], sub.geometry.array.hilbert_distance(total_bounds=sub.geometry.array.total_bounds, p=pp)))
+                    if not touched and pp == 4:
+                        # the parquet route to the same distances (and with a p other than the default)
+                        import shutil
+                        import tempfile
+                        from spatialpandas.io import read_parquet_dask
+                        td = tempfile.mkdtemp(prefix="c08-", dir=os.environ.get("TMPDIR") or "/var/tmp")
+                        try:
+                            f.pack_partitions_to_parquet(os.path.join(td, "d.parq"), npartitions=2, p=pp, _retry_args=dict(stop_max_attempt_number=2, wait_fixed=1))
+                            back = read_parquet_dask(os.path.join(td, "d.parq")).compute()
+                            badp = [(int(i), int(k), int(want[i])) for k, i in zip(back.index, back["id"]) if int(k) != int(want[i])]
+                            if badp or len(back) != len(sub):
+                                chk.violation(f"parquet-keys|{kind}", f"{kind}: pack_partitions_to_parquet(p={pp}) stores keys that are not the rows' Hilbert distances in the "
+                                              f"2^{pp} grid: (id, got, want) {badp[:6]}", "", ctx=dict(site="hilbert_distance", mode="parquet-keys", kind=kind))
+                        except Exception:  # noqa: BLE001
+                            pass
+                        finally:
+                            shutil.rmtree(td, ignore_errors=True)
                     chk.count(len(packed))
                     bad = [(int(i), int(k), int(want[i])) for k, i in zip(packed.index, packed["id"]) if int(k) != int(want[i])]
                     if bad or len(packed) != len(sub):
